@@ -18,7 +18,7 @@ DECISIONS = []
 SITES = False
 ORDER = False
 
-EDITS = ["arg_nested", "arg_top", "ret_fresh", "ret_cached", "ret_file_fresh", "ret_file_cached", "list_dir", "walk_prune", "walk_entry", "kwarg", "kwarg_nested", "sub_kwarg_nested"]
+EDITS = ["arg_nested", "arg_top", "ret_fresh", "ret_cached", "ret_file_fresh", "ret_file_cached", "list_dir", "walk_prune", "walk_entry", "kwarg", "kwarg_nested", "sub_kwarg_nested", "ret_rootfile_fresh", "ret_rootfile_cached"]
 
 
 def scenario(root, edits, log):
@@ -69,6 +69,16 @@ def scenario(root, edits, log):
     for i in range(3):
         def main(b):
             v = b.subbuild("s", sub, ["top", {"k": [5]}], sopt={"names": ["a", "b"], "deep": {"k": {}}})
+            # a build_file call made directly by the root function: its return value on a miss and on a hit
+            def leaf2(bb, p):
+                log.append(("leaf2",))
+                open(p, "w").write("two")
+                return {"count": 2, "names": ["a", "b"]}
+            rf = b.build_file(os.path.join(root, "out", "o2"), "leaf2", leaf2)
+            v["rootfile"] = copy.deepcopy(rf)
+            if ("ret_rootfile_fresh" in E and i == 0) or ("ret_rootfile_cached" in E and i > 0):
+                rf["names"].append("extra%d" % i)
+                rf["count"] = 100 + i
             snap = copy.deepcopy(v)
             if ("ret_fresh" in E and i == 0) or ("ret_cached" in E and i > 0):
                 v["v"][1].append("edited%d" % i)
